@@ -7,17 +7,18 @@ import ErgoVerif.Lemmas.EdfExcl
 
 `Model/Edf.lean` mirrors net/edf (encode.go, decode.go, register.go, init.go) after the `fix:` commits for
 D3 (`%` in error texts), D4 (uint16 wrap for strings of 65534/65535 bytes), D4b (uint32 wrap in
-decodeBinary / Marshaler decoders) and D26 (Marshaler length written into a stale buffer).
+decodeBinary / Marshaler decoders), D26 (Marshaler length written into a stale buffer), D27 (map keyed by an
+array type could not be decoded) and D31 (registered map: count checked after MakeMapWithSize).
 
 * `C11_roundtrip` / `C11_top`: for every type, every value the encoder accepts, every trailing byte string
   and every consistent cache configuration the decoder returns the value and exactly the trailing bytes.
 * The hypothesis `Good o t v` collects (a) what every Go value satisfies (`WF`: dynamic types are registered,
   map keys distinct, lengths < 2^32) and is in canonical form (quiet float32 NaN, atoms fixed by the
   mappings, sentinels in the error cache — see `C11_float32`, `C11_atom`, `C11_sentinel_uncached` for
-  what happens otherwise) and (b) two regions where the CURRENT code does not round-trip:
-  zero-width elements and maps keyed by an unnamed array type inside an interface.  For (b) the full
-  statement `C11_full` is refuted by `C11_counterexample` / `C11_counterexample_map_array_key`
-  (listed findings C11/zero-width-elements, C11/map-array-key); `C11_partial` is the theorem with (b) excluded.
+  what happens otherwise) and (b) one region where the CURRENT code does not round-trip: non-empty collections of
+  zero-width elements.  For (b) the full statement `C11_full` is refuted by `C11_counterexample` (listed finding
+  C11/zero-width-elements); `C11_partial` is the theorem with (b) excluded.  (The second region found by this
+  check, maps keyed by an array type, was repaired: `C11_map_array_key_fixed`.)
 * `C11_reject_*`: the encoder rejects exactly the listed over-long cases.
 -/
 namespace ErgoVerif.Props.C11
@@ -41,20 +42,19 @@ def C11_full : Prop :=
     (encTy o t).length < 65536 → WF o t v → encode o t v = some bs → v.depth ≤ fuel →
     decode o fuel (bs ++ rest) = .ok (some (t, v), rest)
 
-/-- strongest statement that holds for the current code: `Good`/`DescOK` = `WF`/`DescWF` minus zero-width
-    elements in non-empty slices/maps/arrays and minus unnamed composite map key types in descriptors -/
+/-- strongest statement that holds for the current code: `Good` = `WF` minus zero-width elements in non-empty
+    slices/maps/arrays (`DescOK` = `DescWF` since the D27 fix) -/
 theorem C11_partial (o : Opts) (t : Ty) (v : Val) (bs rest : Bytes) (fuel : Nat) (hc : CachesConsistent o)
     (hd : DescOK o t) (hl : (encTy o t).length < 65536) (hg : Good o t v) (he : encode o t v = some bs)
     (hf : v.depth ≤ fuel) : decode o fuel (bs ++ rest) = .ok (some (t, v), rest) :=
   C11_top o hc t v bs rest fuel he hd hl hg hf
 
-/-- the same with the exclusions spelled out: the hypotheses of `C11_full` plus `Excl` (no non-empty collection of
-    zero-width elements) and `keysFlat` (no dynamic map type keyed by an unnamed array) — `Good` is exactly
-    `WF ∧ Excl` -/
+/-- the same with the exclusion spelled out: the hypotheses of `C11_full` plus `Excl` (no non-empty collection of
+    zero-width elements) — `Good` is exactly `WF ∧ Excl` -/
 theorem C11_partial_explicit (o : Opts) (t : Ty) (v : Val) (bs rest : Bytes) (fuel : Nat) (hc : CachesConsistent o)
-    (hd : DescWF o t) (hk : t.keysFlat) (hl : (encTy o t).length < 65536) (hw : WF o t v) (hx : Excl t v)
+    (hd : DescWF o t) (hl : (encTy o t).length < 65536) (hw : WF o t v) (hx : Excl t v)
     (he : encode o t v = some bs) (hf : v.depth ≤ fuel) : decode o fuel (bs ++ rest) = .ok (some (t, v), rest) :=
-  C11_partial o t v bs rest fuel hc (DescOK_of_WF o t hd hk) hl (Good_of_WF o v t hw hx) he hf
+  C11_partial o t v bs rest fuel hc (DescOK_of_WF o t hd) hl (Good_of_WF o v t hw hx) he hf
 
 -- ------------------------------------------------------------------------------------------------
 -- concrete options for witnesses and non-vacuity: no caches, two registered types
@@ -120,21 +120,15 @@ theorem C11_counterexample : ¬ C11_full := by
   rw [zw_fails] at this
   exact absurd this (by decide)
 
-/-- `any(map[[1]uint8]bool{})`: the descriptor 9f 9e 00000001 97 91 does not unfold (array key followed by more fold) -/
+/-- `any(map[[1]uint8]bool{})`: refused before the fix 07a18f8 (D27: the array case of decodeType insisted on ending
+    the fold); now the descriptor 9f 9e 00000001 97 91 unfolds and the value comes back — covered by `C11_top` like
+    every other type (`DescOK` no longer excludes anything a Go map key type can be) -/
 def makTy : Ty := .map (.array 1 (.num .u8)) .bool
 
-theorem mak_encodes : encode o0 makTy (.map .nil) = some [130, 0, 8, 159, 158, 0, 0, 0, 1, 151, 145, 159, 0, 0, 0, 0] := by
-  decide
-theorem mak_fails : decode o0 4 ([130, 0, 8, 159, 158, 0, 0, 0, 1, 151, 145, 159, 0, 0, 0, 0] ++ []) = .err := by
-  decide
-
-theorem C11_counterexample_map_array_key : ¬ C11_full := by
-  intro h
-  have := h o0 makTy (.map .nil) _ [] 4 o0_consistent
-    (by simp [DescWF, makTy, Ty.comparable, uintptrLimit, Ty.size, Num.width]) (by decide)
-    (by simp [makTy, WF, WFp, lim32, Pairs.length, Pairs.KeysOK]) mak_encodes (by decide)
-  rw [mak_fails] at this
-  exact absurd this (by decide)
+theorem C11_map_array_key_fixed :
+    encode o0 makTy (.map .nil) = some [130, 0, 8, 159, 158, 0, 0, 0, 1, 151, 145, 159, 0, 0, 0, 0] ∧
+    decode o0 4 ([130, 0, 8, 159, 158, 0, 0, 0, 1, 151, 145, 159, 0, 0, 0, 0] ++ [7]) = .ok (some (makTy, .map .nil), [7]) := by
+  constructor <;> decide
 
 -- ------------------------------------------------------------------------------------------------
 -- rejection: the encoder returns an error exactly on the listed over-long cases
